@@ -129,6 +129,16 @@ DESC = {
     "C18f": "open_ods copies the input into a SpooledTemporaryFile (inputs above 1 MiB spill to an unnamed file in /tmp)",
     "C19f": "In-Out row map keyed by asset name glued to the row id, never cleared ('ETH'+'23' = 'ETH2'+'3')",
     "C20f": "jp out-transaction fee = crypto_fee * spot only (a fee charged in fiat shows as 0)",
+    "C03g": "IntraTransaction.is_taxable() = 0 < fee < sent (a transfer where nothing arrives is no longer taxable)",
+    "C10g": "rp2_main collapses the [accounting_methods] schedule to the methods in force inside the -f/-t window (events before the window re-matched with another method)",
+    "C11g": "parser: both transactions derived from a crypto-fee IN row get their timestamp normalised to UTC (local day / tax year of the row changes)",
+    "C12g": "-m conflict with [accounting_methods] detected by looking for the literal tokens -m / --method in sys.argv (--method=X, -mX, --meth X slip through; two cooperating edits)",
+    "C14g": "tax report sheets grown 'by the rows that are missing' per type from the same first free row (Investment Expenses: FEE + LOST + MOVE overflow, IndexError)",
+    "C16g": "parser reads row[:configuration.last_column + 1], last_column forgets the intra header (layouts whose INTRA table is the widest)",
+    "C17g": "AVL lot key uses astimezone() without an argument (machine time zone: results depend on TZ inside the repeated hour at the end of daylight saving)",
+    "C18g": "report path .resolve()d before the stale report is unlinked (a symlink named like a report redirects delete and write outside the output directory)",
+    "C19g": "In-Out row lookup memoises the last transaction resolved, not reset per asset (first Tax row of the next asset links wrongly)",
+    "C20g": "jp year grouping by heapq.merge + groupby(year) with dict assignment (interleaved local years: earlier group of a year overwritten)",
 }
 
 
